@@ -1350,7 +1350,9 @@ where
                 return None;
             }
             if n > 0 {
-                let bytes_to_skip = n * element_length;
+                // The element length comes from (server-controlled) type metadata and may be
+                // huge; a product that does not fit cannot be skipped in any frame.
+                let bytes_to_skip = n.saturating_mul(element_length);
                 if let Err(err) = self.slice.read_n_bytes(bytes_to_skip) {
                     // We checked that `n < self.remaining`, so this won't cause
                     // negative overflow.
